@@ -11,5 +11,6 @@ def vmap_methods(ctx):
 
 
 RULES = [pjaxr.gfi_vmap_repeat, pjaxr.dummy_protocol_events, pjaxr.logdensity_batch_terms, pjaxr.vmap_lane_randomness, pjaxr.modular_vmap_control_flow_events, vmap_methods, gfi.vmap_narrow,
-         pjaxr.first_leaf_guard, pjaxr.sample_batch_axes, pjaxr.dispatch_sets_events, gfi.cond_trace_rules, pjaxr.mvmap_fallthrough]
+         pjaxr.first_leaf_guard, pjaxr.sample_batch_axes, pjaxr.dispatch_sets_events, gfi.cond_trace_rules, pjaxr.mvmap_fallthrough,
+         gfi.vmap_kwargs_sig]   # keyword arguments are mapped along axis 0 whatever in_axes says, as jax.vmap does (wave 10: the rule existed under C01 only)
 FLOOR = 15
